@@ -365,6 +365,11 @@ func addImport(f *ast.File, path string) {
 }
 
 // Instrument copies srcRepo into dst and rewrites it. simrtSrc is the path of simrt.go.
+// InstrumentTags lists the build tags of the build the instrumented copy is made for ("race" for the C18 worker): a
+// file whose build constraint excludes it from that build is left exactly as it is (the compiler will skip it too);
+// a file that is included keeps its constraint lines at the top of the rewritten source.
+var InstrumentTags []string
+
 func Instrument(srcRepo, dst, simrtSrc string, withTests bool) (*InstrResult, error) {
 	dirs, err := copyTree(srcRepo, dst, withTests)
 	if err != nil {
@@ -396,6 +401,7 @@ func Instrument(srcRepo, dst, simrtSrc string, withTests bool) (*InstrResult, er
 		path string
 		f    *ast.File
 	}
+	headers := map[string]string{}
 	for _, d := range dirs {
 		ents, err := os.ReadDir(filepath.Join(dst, d))
 		if err != nil {
@@ -413,13 +419,41 @@ func Instrument(srcRepo, dst, simrtSrc string, withTests bool) (*InstrResult, er
 			if err != nil {
 				return nil, err
 			}
-			if bytes.Contains(src, []byte("//go:build")) || bytes.Contains(src, []byte("// +build")) || bytes.Contains(src, []byte("\n//go:")) {
-				return nil, fmt.Errorf("%s: build constraints / compiler directives are not supported by the instrumenter", p)
+			for _, dir := range []string{"//go:linkname", "//go:embed", "//go:cgo_", "//go:generate", "//go:wasm", "//go:nosplit", "//go:norace", "//go:uintptr"} {
+				if bytes.Contains(src, []byte("\n"+dir)) {
+					return nil, fmt.Errorf("%s: compiler directive %s is not supported by the instrumenter", p, dir)
+				}
+			}
+			header := ""
+			if bytes.Contains(src, []byte("//go:build")) || bytes.Contains(src, []byte("// +build")) {
+				ctx := gobuild.Default
+				ctx.BuildTags = append([]string(nil), InstrumentTags...)
+				ctx.CgoEnabled = true
+				match, err := ctx.MatchFile(filepath.Join(dst, d), n)
+				if err != nil {
+					return nil, fmt.Errorf("%s: build constraint: %v", p, err)
+				}
+				if !match {
+					continue // excluded from this build: left as it is
+				}
+				for _, line := range strings.Split(string(src), "\n") {
+					t := strings.TrimSpace(line)
+					if strings.HasPrefix(t, "package ") {
+						break
+					}
+					if strings.HasPrefix(t, "//go:build") || strings.HasPrefix(t, "// +build") {
+						header += t + "\n"
+					}
+				}
+				if header != "" {
+					header += "\n"
+				}
 			}
 			f, err := parser.ParseFile(in.fset, p, src, parser.SkipObjectResolution)
 			if err != nil {
 				return nil, fmt.Errorf("parse %s: %v", p, err)
 			}
+			headers[filepath.Join(d, n)] = header
 			files = append(files, parsed{filepath.Join(d, n), f})
 			asts = append(asts, f)
 		}
@@ -481,7 +515,7 @@ func Instrument(srcRepo, dst, simrtSrc string, withTests bool) (*InstrResult, er
 			if err := format.Node(&out, in.fset, pf.f); err != nil {
 				return nil, fmt.Errorf("print %s: %v", pf.path, err)
 			}
-			if err := os.WriteFile(filepath.Join(dst, pf.path), out.Bytes(), 0o644); err != nil {
+			if err := os.WriteFile(filepath.Join(dst, pf.path), append([]byte(headers[pf.path]), out.Bytes()...), 0o644); err != nil {
 				return nil, err
 			}
 		}
